@@ -12,6 +12,7 @@ package main
 // k = infinity case.
 
 import (
+	"bytes"
 	"bufio"
 	"crypto/sha256"
 	"encoding/hex"
@@ -173,6 +174,7 @@ func runC11child(r *Result, thorough bool) {
 		appendLine(filepath.Join(dir, "writes"), fmt.Sprint(counter))
 	}
 	var joiner *member
+	bigDone := false
 	for s := 0; s < steps; s++ {
 		act := cl.activeMembers()
 		a, b := act[rng.Intn(len(act))], act[rng.Intn(len(act))]
@@ -182,7 +184,14 @@ func runC11child(r *Result, thorough bool) {
 		if rng.Intn(2) == 0 {
 			cl.submit(a, cl.newTx())
 		}
-		if withJoin && joiner == nil && s == steps/3 {
+		if s >= steps/4 && !bigDone && r.Seed%100%2 == 1 {
+			bigDone = true
+			// every other schedule: one transaction of a few megabytes (an unusual but legitimate payload)
+			big := append([]byte(fmt.Sprintf("big-%d-", r.Seed)), bytes.Repeat([]byte{'x'}, 3500000)...)
+			cl.submit(a, big)
+			appendLine(filepath.Join(dir, "bigtx"), "1")
+		}
+		if withJoin && joiner == nil && s >= steps/3 {
 			j := newMember(cl.rng, len(cl.members))
 			j.joiner = true
 			cl.mkCoreLogged(j, a.core.Peers().Peers, filepath.Join(dir, fmt.Sprintf("m%d.deliveries", j.idx)))
@@ -265,6 +274,9 @@ func runC11(r *Result, thorough bool) {
 			}
 		}
 		r.Inc("write_boundaries_inside_an_insertion", len(inWalk))
+		if _, err := os.Stat(filepath.Join(dir, "bigtx")); err == nil {
+			r.Inc("schedules_with_a_transaction_of_several_megabytes", 1)
+		}
 		// the clean-shutdown case: recover from the dry run's databases
 		c11Recover(r, rng, dir, seed, -1, total)
 		os.RemoveAll(dir)
